@@ -8,7 +8,7 @@
    kernels TRANSLATED from krigesum.pyx (gen/Krigesum_gen.v), krige_call = with data preparation, mean,
    normalizer, trend and variance clipping.  Kinv is whatever matrix the implementation obtained from
    LAPACK; theorems state what they assume about it.   mat_of / vec_of read lists as index functions. *)
-From Coq Require Import Reals List.
+From Coq Require Import Reals List Sorted.
 From GS Require Import Num Loops Krigesum_gen C05_Mat C05_RInst C05_Model C05_Proofs C05_Examples.
 
 (* the list-of-lists built by the model's _get_krige_mat has the entries the theorems speak about *)
@@ -178,3 +178,12 @@ Theorem C05_cond_order_invariant :
     aget 0%R (snd (krige_raw Rops S' Q' Kinv' cond' chunk')) t' = aget 0%R (snd (krige_raw Rops S Q Kinv cond chunk)) t.
 Proof. exact cond_order_invariant. Qed.
 Print Assumptions C05_cond_order_invariant.
+
+(* the polynomial drift basis of universal kriging ("linear", "quadratic", integer order): every basis
+   function is a monomial of degree 1..order in coordinates below dim with non-decreasing indices
+   (order and content of the list for 2-D quadratic: x, y, xx, xy, yy -- Example drift_basis_quadratic_2d) *)
+Theorem C05_drift_basis :
+  forall (dim order : nat) (sel : list nat), In sel (drift_selects dim order) ->
+    (1 <= length sel <= order)%nat /\ Forall (fun i : nat => (i < dim)%nat) sel /\ Sorted.StronglySorted le sel.
+Proof. exact drift_basis_spec. Qed.
+Print Assumptions C05_drift_basis.
